@@ -1,14 +1,20 @@
 import Driver.Basic
 import OxyModel.Model.ConnLimit
+import OxyModel.Model.Source
 
 /-! Driver for the C04 protocol (see `harness/cmd/c04`): runs `ConnLimit.step` — the definition the
 C04 theorems (and `conn_noninterference`) are about.
 
-    cfg max=<int> [ext=custom|builtin] [slowreject=1]
+    cfg max=<int> [ext=custom|builtin] [slowreject=1] [verbose=0|1] [log=0|1] [hvar=<name>] [hsend=<name>]
     start <id> <src> [amt=<int>] [err=1]   -> admitted | 429 | rejecting | err 500 | dup
     finish <id> normal|panic               -> released | rejected-done | unknown
     pstart <n> <src> <prefix>              -> admitted=<a> rejected=<r> | admitted=<a> rejecting=<r> | dup
     inflight <src>                         -> <n>
+
+`ext=builtin`: the limiter's extractor is `NewExtractor("request.header." ++ hvar)` and the client sends
+its source label in the header line `hsend: <src>` (both default `X-Src`); the token the limiter sees
+is `Source.headerGet [(hsend, src)] hvar` (the C19 model).  `verbose` / `log` select connlimit's
+`Verbose` / `Logger` options: they only add log lines, the model ignores them.
 
 `pstart`: `n` (1..64) simultaneous arrivals of one source, ids `<prefix>0 … <prefix>(n-1)`; the model
 takes them as `n` atomic steps in id order (`ConnLimit.burstEvents`) and prints the counts.
@@ -20,6 +26,12 @@ namespace DriverC04
 structure St where
   sys : SysR
   builtin : Bool
+  hvar : Source.Str
+  hsend : Source.Str
+
+/-- the token the configured extractor yields for a client labelled `src` -/
+def St.tok (st : St) (src : String) : String :=
+  if st.builtin then String.ofList (Source.headerGet [(st.hsend, src.toList)] st.hvar) else src
 
 def outStr : OutR → String
   | .base .admitted => "admitted"
@@ -45,11 +57,11 @@ def step (st : St) : List String → St × String
     if !known || opts.length > 2 || (st.builtin && !opts.isEmpty) then (st, "bad-op") else
     if opts.contains "err=1" then apply st (.startErr id) else
     match Driver.kv opts "amt" with
-    | none => apply st (.start id src 1)
+    | none => apply st (.start id (st.tok src) 1)
     | some v =>
       match v.toInt? with
       | none => (st, "bad-op")
-      | some a => apply st (.start id src a)
+      | some a => apply st (.start id (st.tok src) a)
   | ["finish", id, "normal"] => apply st (.finish id .normal)
   | ["finish", id, "panic"] => apply st (.finish id .panic)
   | ["pstart", n, src, pre] =>
@@ -57,14 +69,14 @@ def step (st : St) : List String → St × String
     | none => (st, "bad-op")
     | some n =>
       if n = 0 || n > 64 then (st, "bad-op") else
-      let evs := burstEvents pre src 1 n
+      let evs := burstEvents pre (st.tok src) 1 n
       if evs.any (fun e => match e with | .start id _ _ => inUse st.sys id | _ => false) then (st, "dup") else
       let os := outsR st.sys evs
       let a := os.count (.base .admitted)
       let r := os.count (.base .rejected) + os.count .rejecting
       ({ st with sys := runR st.sys evs },
         "admitted=" ++ toString a ++ (if st.sys.slow then " rejecting=" else " rejected=") ++ toString r)
-  | ["inflight", src] => (st, toString (inflightCount st.sys.base.inflight src))
+  | ["inflight", src] => (st, toString (inflightCount st.sys.base.inflight (st.tok src)))
   | _ => (st, "bad-op")
 
 def init (f : List String) : St × String :=
@@ -72,7 +84,10 @@ def init (f : List String) : St × String :=
     | some v => v.toInt?.getD 0
     | none => 0
   let b := Driver.kv f "ext" == some "builtin"
-  (⟨SysR.init mx (Driver.kv f "slowreject" == some "1"), b⟩, "ok")
+  let hv := ((Driver.kv f "hvar").getD "X-Src").toList
+  let hs := ((Driver.kv f "hsend").getD "X-Src").toList
+  if hv.isEmpty || hs.isEmpty then (⟨SysR.init mx false, b, hv, hs⟩, "bad-op") else
+  (⟨SysR.init mx (Driver.kv f "slowreject" == some "1"), b, hv, hs⟩, "ok")
 
 def machine : Driver.Machine St where
   init := init
